@@ -337,6 +337,9 @@ def evaluate(view, events, where=None, partial=False, packages=None):
                     if q in imported:
                         continue
                     imported.append(q)
+                    if packages[q].get('broken'):
+                        # a component that is not a valid schema fragment: the importing line is refused
+                        raise Reject(at(i), 'bad-import')
                     view.add_component(packages[q])
                     todo += list(packages[q].get('imports', ()))
             elif ev[0] == 'include':
